@@ -517,7 +517,7 @@ def rfill(rng):
 
 
 def gen(rng, tier):
-    reps = 1 if tier == 'quick' else 10
+    reps = 2 if tier == 'quick' else 20
     cases = kat_cases()
     for _ in range(reps):
         # every PIN length x position x digit value; PAN lengths 13..19 in turn
